@@ -176,11 +176,14 @@ theorem C04_safe_traced_iff (o : TraceOpts) (fs : TFields) (fields : List Field)
   have := safe_schema_iff fields (List.all_eq_true.mpr fun f hf => (hside f hf).2) root0 h0
   rwa [hfields, Fields.ofList_toList] at this
 
-/-- the core of the round trip: `from_marrow`'s checks pass with record count `vs.length`, the root reader is
-constructed, and the typed read of every index returns the normalised value (`C04_roundtrip`,
-`C04_roundtrip_bulk` are its two front ends).  No hypothesis about `ext`: the schema has no temporal column, so the run is
+/-- the core of the round trip in its general form, with the array-side premise `hphys` (`Read.physical` of the columns,
+given their well-formedness) left open: `from_marrow`'s checks pass with record count `vs.length`, the root reader is
+constructed, and the typed read of every index returns the normalised value.  `C04_roundtrip_core_fields` /
+`C04_roundtrip_core` below discharge `hphys` from the input-side bound `vs.length ≤ i64::MAX` (`C04_physical_fields`);
+`C04_roundtrip_bulk_plain` discharges it without any bound for dictionary-free schemas (`physical_traced`).
+No hypothesis about `ext`: the schema has no temporal column, so the run is
 replayed under `refuseExt ext` (`toMarrow_refuse_traced`), for which `ExtOK` holds (`refuseExt_ok`). -/
-theorem C04_roundtrip_core_fields (O : Trace.Options) (ext : Ext) (n : String) (fs : TFields) (vs : List Val)
+theorem C04_roundtrip_core_fields_of_physical (O : Trace.Options) (ext : Ext) (n : String) (fs : TFields) (vs : List Val)
     (fields : List Field) (arrs : List Arr)
     (hfrag : fragE (.struct n fs) = true) (hne : fs ≠ .nil)
     (hwt : ∀ v ∈ vs, wt (.struct n fs) v = true)
@@ -267,23 +270,6 @@ theorem C04_roundtrip_core_fields (O : Trace.Options) (ext : Ext) (n : String) (
     (by simpa [rootArr, Read.physical] using hphys hcols)
     (utf8Ok_lvO o t vs[i]) hcast
 
-/-- the core against what `from_type` returned (`C04_roundtrip_core_fields` with `C04_fromType_fields`) -/
-theorem C04_roundtrip_core (c : Trace.Code) (O : Trace.Options) (ext : Ext) (n : String) (fs : TFields) (vs : List Val)
-    (fields : List Field) (arrs : List Arr)
-    (h0 : O.overwrites = []) (hfrag : fragE (.struct n fs) = true) (hne : fs ≠ .nil)
-    (hwt : ∀ v ∈ vs, wt (.struct n fs) v = true)
-    (hsc : ∀ v ∈ vs, inScopeO (viewOpts O) (.struct n fs) v = true)
-    (hphys : Spec.wfFields (mappingFields (viewOpts O) fs) (zipCols fields arrs) vs.length = true →
-      Read.physicalFields (zipCols fields arrs) = true)
-    (hft : Trace.fromType c O (toTraceTy (.struct n fs)) = .ok fields)
-    (htm : toMarrow ext fields (vs.map (ser (.struct n fs))) = .ok arrs) :
-    Access.new true fields.length (arrs.map Read.vlen) = .ok vs.length ∧
-    Read.new Read.Fixes.all (rootArr fields arrs vs.length) = .ok () ∧
-    ∀ (i : Nat) (hi : i < vs.length),
-      Read.readAs Read.Fixes.all (toTarget (.struct n fs)) (rootArr fields arrs vs.length) i =
-        .ok (dvalOf (.struct n fs) (norm (.struct n fs) vs[i])) :=
-  C04_roundtrip_core_fields O ext n fs vs fields arrs hfrag hne hwt hsc hphys (C04_fromType_fields c O h0 n fs fields hft) htm
-
 /-- `C04_physical` against the documented mapping itself (no hypothesis about `from_type`) -/
 theorem C04_physical_fields (O : Trace.Options) (ext : Ext) (n : String) (fs : TFields) (vs : List Val)
     (fields : List Field) (arrs : List Arr)
@@ -301,11 +287,47 @@ theorem C04_physical_fields (O : Trace.Options) (ext : Ext) (n : String) (fs : T
   · rw [List.length_map, hfields]
     exact mapped_sizeOK (viewOpts O) fs vs.length hlen
 
+/-- **the core of the round trip** (`C04_roundtrip`, `C04_roundtrip_bulk` are its two front ends): `from_marrow`'s checks
+pass with record count `vs.length`, the root reader is constructed, and the typed read of every index returns the
+normalised value.  No premise about the arrays: `Read.physical` is derived inside from the input-side bound `hlen` (at most
+`i64::MAX` records; `C04_physical_fields`). -/
+theorem C04_roundtrip_core_fields (O : Trace.Options) (ext : Ext) (n : String) (fs : TFields) (vs : List Val)
+    (fields : List Field) (arrs : List Arr)
+    (hfrag : fragE (.struct n fs) = true) (hne : fs ≠ .nil)
+    (hwt : ∀ v ∈ vs, wt (.struct n fs) v = true)
+    (hsc : ∀ v ∈ vs, inScopeO (viewOpts O) (.struct n fs) v = true)
+    (hlen : vs.length ≤ 9223372036854775807)
+    (hfields : fields = (mappingFields (viewOpts O) fs).toList)
+    (htm : toMarrow ext fields (vs.map (ser (.struct n fs))) = .ok arrs) :
+    Access.new true fields.length (arrs.map Read.vlen) = .ok vs.length ∧
+    Read.new Read.Fixes.all (rootArr fields arrs vs.length) = .ok () ∧
+    ∀ (i : Nat) (hi : i < vs.length),
+      Read.readAs Read.Fixes.all (toTarget (.struct n fs)) (rootArr fields arrs vs.length) i =
+        .ok (dvalOf (.struct n fs) (norm (.struct n fs) vs[i])) :=
+  C04_roundtrip_core_fields_of_physical O ext n fs vs fields arrs hfrag hne hwt hsc
+    (fun _ => zip_physical fields arrs (C04_physical_fields O ext n fs vs fields arrs hwt hlen hfields htm)) hfields htm
+
+/-- the core against what `from_type` returned (`C04_roundtrip_core_fields` with `C04_fromType_fields`) -/
+theorem C04_roundtrip_core (c : Trace.Code) (O : Trace.Options) (ext : Ext) (n : String) (fs : TFields) (vs : List Val)
+    (fields : List Field) (arrs : List Arr)
+    (h0 : O.overwrites = []) (hfrag : fragE (.struct n fs) = true) (hne : fs ≠ .nil)
+    (hwt : ∀ v ∈ vs, wt (.struct n fs) v = true)
+    (hsc : ∀ v ∈ vs, inScopeO (viewOpts O) (.struct n fs) v = true)
+    (hlen : vs.length ≤ 9223372036854775807)
+    (hft : Trace.fromType c O (toTraceTy (.struct n fs)) = .ok fields)
+    (htm : toMarrow ext fields (vs.map (ser (.struct n fs))) = .ok arrs) :
+    Access.new true fields.length (arrs.map Read.vlen) = .ok vs.length ∧
+    Read.new Read.Fixes.all (rootArr fields arrs vs.length) = .ok () ∧
+    ∀ (i : Nat) (hi : i < vs.length),
+      Read.readAs Read.Fixes.all (toTarget (.struct n fs)) (rootArr fields arrs vs.length) i =
+        .ok (dvalOf (.struct n fs) (norm (.struct n fs) vs[i])) :=
+  C04_roundtrip_core_fields O ext n fs vs fields arrs hfrag hne hwt hsc hlen (C04_fromType_fields c O h0 n fs fields hft) htm
+
 /-- **`Read.physical` of the arrays built against a type-traced schema** — the size precondition of the reader, EVERY option
 (dictionary-encoded strings and string-stored enums included): at most `i64::MAX` records.  `Props.C03.toMarrow_physical` (the
 builders' counting invariant: a dictionary holds at most as many values as keys were pushed) with its size condition
-discharged from the shape of the documented mapping (never a FixedSizeList: `mapped_sizeOK`).  Discharges the array-side
-hypothesis `hphys` of the cores `C04_roundtrip_core` / `C04_roundtrip_core_fields` in the round-trip theorems. -/
+discharged from the shape of the documented mapping (never a FixedSizeList: `mapped_sizeOK`).  Its form against the mapping,
+`C04_physical_fields`, is what the cores `C04_roundtrip_core` / `C04_roundtrip_core_fields` use to derive `Read.physical`. -/
 theorem C04_physical (c : Trace.Code) (O : Trace.Options) (ext : Ext) (n : String) (fs : TFields) (vs : List Val)
     (fields : List Field) (arrs : List Arr)
     (h0 : O.overwrites = [])
@@ -363,8 +385,7 @@ theorem C04_roundtrip (c : Trace.Code) (O : Trace.Options) (ext : Ext) (n : Stri
     ∀ (i : Nat) (hi : i < vs.length),
       readRecord (toTarget (.struct n fs)) fields arrs i = .ok (dvalOf (.struct n fs) (norm (.struct n fs) vs[i])) := by
   intro i hi
-  obtain ⟨hacc, hnew, hread⟩ := C04_roundtrip_core c O ext n fs vs fields arrs h0 hfrag hne hwt hsc
-    (fun _ => zip_physical fields arrs (C04_physical c O ext n fs vs fields arrs h0 hwt hlen hft htm)) hft htm
+  obtain ⟨hacc, hnew, hread⟩ := C04_roundtrip_core c O ext n fs vs fields arrs h0 hfrag hne hwt hsc hlen hft htm
   simp only [readRecord, hacc, bind, Except.bind]
   rw [hnew]
   simp only [Access.getIdx, ge_iff_le, Nat.not_le.mpr hi, if_false]
@@ -388,8 +409,7 @@ theorem C04_roundtrip_bulk (c : Trace.Code) (O : Trace.Options) (ext : Ext) (n :
     (hft : Trace.fromType c O (toTraceTy (.struct n fs)) = .ok fields)
     (htm : toMarrow ext fields (vs.map (ser (.struct n fs))) = .ok arrs) :
     readAll (toTarget (.struct n fs)) fields arrs = .ok (vs.map fun v => dvalOf (.struct n fs) (norm (.struct n fs) v)) := by
-  obtain ⟨hacc, hnew, hread⟩ := C04_roundtrip_core c O ext n fs vs fields arrs h0 hfrag hne hwt hsc
-    (fun _ => zip_physical fields arrs (C04_physical c O ext n fs vs fields arrs h0 hwt hlen hft htm)) hft htm
+  obtain ⟨hacc, hnew, hread⟩ := C04_roundtrip_core c O ext n fs vs fields arrs h0 hfrag hne hwt hsc hlen hft htm
   simp only [readAll, hacc, bind, Except.bind]
   rw [hnew]
   simp only [Props.C13.bulk_eq_items]
@@ -440,8 +460,8 @@ theorem C04_roundtrip_bulk_plain (c : Trace.Code) (O : Trace.Options) (ext : Ext
     (hft : Trace.fromType c O (toTraceTy (.struct n fs)) = .ok fields)
     (htm : toMarrow ext fields (vs.map (ser (.struct n fs))) = .ok arrs) :
     readAll (toTarget (.struct n fs)) fields arrs = .ok (vs.map fun v => dvalOf (.struct n fs) (norm (.struct n fs) v)) := by
-  obtain ⟨hacc, hnew, hread⟩ := C04_roundtrip_core c O ext n fs vs fields arrs h0 hfrag hne hwt hsc
-    (physical_traced (viewOpts O) hd he fs _ _) hft htm
+  obtain ⟨hacc, hnew, hread⟩ := C04_roundtrip_core_fields_of_physical O ext n fs vs fields arrs hfrag hne hwt hsc
+    (physical_traced (viewOpts O) hd he fs _ _) (C04_fromType_fields c O h0 n fs fields hft) htm
   simp only [readAll, hacc, bind, Except.bind]
   rw [hnew]
   simp only [Props.C13.bulk_eq_items]
